@@ -209,7 +209,9 @@ def run(ctx):
         for nm in sorted(ac.ENTRIES):
             run_hypothesis(ctx, 'ode', ac.analytic_case(names=[nm]), prop_ode, 14 if quick else 300, rounds=3)
     if not only or 'simulators' in only:
-        run_hypothesis(ctx, 'simulators', simrun.sim_case(nmax=12), prop_sim, 400 if quick else 15000, rounds=4)
+        for sim in simrun.SIMS:
+            run_hypothesis(ctx, 'simulators', simrun.sim_case(sims=[sim], nmax=12), prop_sim,
+                           (60 if sim.startswith('Gillespie_s') else 30) if quick else 1500, rounds=3)
     if not only or 'helpers' in only:
         from . import c17
         run_hypothesis(ctx, 'helpers', c17.contact_case(), prop_helpers, 150 if quick else 5000, rounds=4)
